@@ -156,6 +156,7 @@ class BasicContiguousVector<cntgs::Options<Option...>, Parameter...>
         ~BasicContiguousVector() noexcept
     {
         destruct_if_owned();
+        locator_->release(get_allocator(), memory_begin());
     }
 
     template <class... Args>
@@ -390,6 +391,7 @@ class BasicContiguousVector<cntgs::Options<Option...>, Parameter...>
                                      get_allocator()};
         BasicContiguousVector::insert_into<true>(other_locator, new_max_element_count, new_memory, *this);
         max_element_count_ = new_max_element_count;
+        locator_->release(get_allocator(), memory_begin());
         *locator_ = std::move(other_locator);
         memory_.reset(std::move(new_memory));
     }
@@ -474,6 +476,7 @@ class BasicContiguousVector<cntgs::Options<Option...>, Parameter...>
     constexpr void steal(BasicContiguousVector&& other) noexcept
     {
         destruct_if_owned();
+        locator_->release(get_allocator(), memory_begin());
         max_element_count_ = other.max_element_count_;
         memory_ = std::move(other.memory_);
         locator_ = std::move(other.locator_);
@@ -504,6 +507,7 @@ class BasicContiguousVector<cntgs::Options<Option...>, Parameter...>
                         other.max_element_count_, get_allocator()};
                     destruct_if_owned();
                     BasicContiguousVector::insert_into(*other_locator, other.max_element_count_, new_memory, other);
+                    locator_->release(get_allocator(), memory_begin());
                     memory_ = std::move(new_memory);
                     locator_ = std::move(other_locator);
                 }
@@ -514,6 +518,7 @@ class BasicContiguousVector<cntgs::Options<Option...>, Parameter...>
                                                               other.max_element_count_, get_allocator()};
                     destruct_if_owned();
                     BasicContiguousVector::insert_into(*other_locator, other.max_element_count_, memory_, other);
+                    locator_->release(get_allocator(), memory_begin());
                     locator_ = std::move(other_locator);
                 }
                 max_element_count_ = other.max_element_count_;
@@ -532,6 +537,7 @@ class BasicContiguousVector<cntgs::Options<Option...>, Parameter...>
     void copy_assign(const BasicContiguousVector& other)
     {
         destruct_if_owned();
+        locator_->release(get_allocator(), memory_begin());
         memory_ = other.memory_;
         ElementLocatorAndFixedSizes other_locator{other.locator_, other.memory_begin(),     other.max_element_count_,
                                                   memory_begin(), other.max_element_count_, get_allocator()};
